@@ -62,19 +62,22 @@ Print Assumptions C10_lockfree_functions_write_nothing.
 Theorem C10_census_parts :
   vars_only_initialised ConcStateGen.state_writes = true /\
   lf_reads_no_locked_field ConcStateGen.lf_read_fields = true /\
-  holders_hold_only_the_cache ConcStateGen.shared_fields = true.
-Proof. exact (conj census_vars_only_initialised (conj census_lf_reads_no_locked_field census_holders)). Qed.
+  holders_hold_only_the_cache ConcStateGen.shared_fields = true /\
+  lk_writes_to_fresh ConcStateGen.lk_field_writes = true.
+Proof. exact (conj census_vars_only_initialised (conj census_lf_reads_no_locked_field (conj census_holders census_lk_writes_to_fresh))). Qed.
 Print Assumptions C10_census_parts.
 
 (* the checks discriminate: a memo map in the Reflector filled by NewRoot (directly or through
    a local alias), a package-level cache filled inside Schema, a new mutable field on a
-   long-lived object, a per-call type becoming reachable from one — each is rejected *)
+   long-lived object, a per-call type becoming reachable from one, a locked function that
+   modifies a schema object it found in the cache — each is rejected *)
 Example C10_census_rejects_regressions :
   lf_writes_nothing ConcStateGen.lockfree_fns (memo_write :: ConcStateGen.state_writes) = false /\
   lf_writes_nothing ConcStateGen.lockfree_fns (memo_alias_write :: ConcStateGen.state_writes) = false /\
   vars_only_initialised (pkg_cache_write :: ConcStateGen.state_writes) = false /\
   holders_hold_only_the_cache (("j5reflect.Reflector.rootProps"%string, "map[string]*j5reflect.propSet"%string, true) :: ConcStateGen.shared_fields) = false /\
-  forallb shared_type_ok ("j5reflect.propSet"%string :: ConcStateGen.shared_types) = false.
+  forallb shared_type_ok ("j5reflect.propSet"%string :: ConcStateGen.shared_types) = false /\
+  lk_writes_to_fresh (republish_write :: ConcStateGen.lk_field_writes) = false.
 Proof. exact census_rejects_regressions. Qed.
 
 (* ---- the guarded discipline: for ALL type universes (cyclic or not, with or without
@@ -296,6 +299,21 @@ Print Assumptions C10_logic_guarded.
 Theorem C10_memory_guarded_partial : C10_memory_statement Guarded.
 Proof. exact memory_guarded. Qed.
 Print Assumptions C10_memory_guarded_partial.
+
+(* "runtime crashes": Go aborts with "fatal error: concurrent map writes / concurrent map read
+   and map write" when two goroutines access one map, one of them writing, unordered.  No
+   guarded run meets that condition on sc.packages or on any Schemas map; without the lock the
+   model meets it (thread 0 inserts into a Schemas map while thread 1 reads it).  PARTIAL in the
+   same sense as the theorem above: about the model's events *)
+Theorem C10_guarded_no_concurrent_map_access_partial : forall pk k g calls sched, calls_ok calls ->
+  ~ concurrent_map_access (events Guarded pk k g calls sched).
+Proof. exact guarded_no_concurrent_map_access. Qed.
+Print Assumptions C10_guarded_no_concurrent_map_access_partial.
+
+Theorem C10_unguarded_concurrent_map_access :
+  concurrent_map_access (events Unguarded (fun _ => 0) 3 [(1, [2]); (2, [])] [[1]; [1]] [0; 0; 0; 1; 1]%nat).
+Proof. exact unguarded_concurrent_map_access. Qed.
+Print Assumptions C10_unguarded_concurrent_map_access.
 
 (* the locations of the statement: sc.packages and the Schemas map of each package are
    distinct (pk assigns type names to packages; here odd / even names), registered, and one
